@@ -67,7 +67,7 @@ func Mix(seed uint64, salt string, idx uint64) uint64 {
 type Tape struct {
 	Seed   uint64
 	Replay bool
-	genDyn bool // replayed scenario, generated dynamic stream
+	genDyn bool     // replayed scenario, generated dynamic stream
 	scen   []uint32 // input cells in replay mode
 	dyn    []uint32
 	si, di int
@@ -172,8 +172,8 @@ func (t *Tape) DF(n int, gen func(r *Rand) int) int {
 // Rand is the view of the PRNG handed to biased generators.
 type Rand struct{ p *prng }
 
-func (r *Rand) Intn(n int) int   { return r.p.intn(n) }
-func (r *Rand) Uint64() uint64   { return r.p.next() }
+func (r *Rand) Intn(n int) int           { return r.p.intn(n) }
+func (r *Rand) Uint64() uint64           { return r.p.next() }
 func (r *Rand) Chance(num, den int) bool { return r.p.intn(den) < num }
 
 // Weighted returns an index drawn with the given weights.
